@@ -2,6 +2,7 @@ package model
 
 import (
 	"reflect"
+	"slices"
 	"sync"
 
 	"github.com/enbility/spine-go/util"
@@ -96,6 +97,8 @@ func (n *NodeManagementUseCaseDataType) AddUseCaseSupport(
 	usecaseIndex, ok := n.useCaseInformationIndex(address, actor, "")
 
 	if ok {
+		// the list may share its array with copies of the data handed out earlier: change a copy
+		n.UseCaseInformation = slices.Clone(n.UseCaseInformation)
 		n.UseCaseInformation[usecaseIndex].Add(useCaseSupport)
 	} else {
 		// create a new element for this entity
@@ -107,7 +110,7 @@ func (n *NodeManagementUseCaseDataType) AddUseCaseSupport(
 			Actor:          &actor,
 			UseCaseSupport: []UseCaseSupportType{useCaseSupport},
 		}
-		n.UseCaseInformation = append(n.UseCaseInformation, useCaseInformation)
+		n.UseCaseInformation = append(slices.Clip(n.UseCaseInformation), useCaseInformation)
 	}
 }
 
@@ -142,7 +145,11 @@ func (n *NodeManagementUseCaseDataType) SetAvailability(
 	useCaseInformation := n.UseCaseInformation[usecaseIndex]
 	for index, item := range useCaseInformation.UseCaseSupport {
 		if item.UseCaseName != nil && *item.UseCaseName == useCaseName {
-			n.UseCaseInformation[usecaseIndex].UseCaseSupport[index].UseCaseAvailable = util.Ptr(availability)
+			// both lists may share their arrays with copies of the data handed out earlier: change copies
+			support := slices.Clone(useCaseInformation.UseCaseSupport)
+			support[index].UseCaseAvailable = util.Ptr(availability)
+			n.UseCaseInformation = slices.Clone(n.UseCaseInformation)
+			n.UseCaseInformation[usecaseIndex].UseCaseSupport = support
 
 			return
 		}
